@@ -452,9 +452,11 @@ func bmpPeerDown(ev *watchEventPeer, t uint8, policy bool, pd uint64) *bmp.BMPMe
 		reasonCode = bmp.BMP_PEER_DOWN_REASON_LOCAL_BGP_NOTIFICATION
 	case fsmAdminDown:
 		reasonCode = bmp.BMP_PEER_DOWN_REASON_LOCAL_NO_NOTIFICATION
-	case fsmNotificationRecv, fsmGracefulRestart, fsmHardReset:
+	case fsmNotificationRecv, fsmHardReset:
 		reasonCode = bmp.BMP_PEER_DOWN_REASON_REMOTE_BGP_NOTIFICATION
-	case fsmReadFailed, fsmWriteFailed:
+	case fsmReadFailed, fsmWriteFailed, fsmGracefulRestart:
+		// a session that ends in graceful restart was lost without a
+		// NOTIFICATION: reason 3 must carry the NOTIFICATION PDU
 		reasonCode = bmp.BMP_PEER_DOWN_REASON_REMOTE_NO_NOTIFICATION
 	case fsmDeConfigured:
 		reasonCode = bmp.BMP_PEER_DOWN_REASON_PEER_DE_CONFIGURED
